@@ -51,6 +51,7 @@ Record case := mkCase {
   o_log : list frame;       (* observed: decoded frames written to the transport *)
   o_glog : list pubT;       (* observed: what the broker accepted (offset, epoch index, filtered?) *)
   o_cwlen : N;              (* observed: items left in the per-channel batching writer at the end *)
+  o_subscribed : bool;      (* observed: Client.IsSubscribed(channel) when the schedule ended *)
   o_deliv : list frame      (* the PUB/SUB messages the driver handed to the node, in delivery order
                                (as FPub / FJoin / FLeave); used by C10's push-order clause *)
 }.
@@ -81,7 +82,8 @@ Definition corr_with (fa fs f0 f1 f2 : bool) (k : case) : bool :=
   let c := mkCfg (k_var k) (k_pos k) (k_rec k) (k_since k) (k_since_ep k) (k_jl k) fa fs (k_batch k) f0 f1 f2 in
   match hrun c init (k_sched k) with
   | Some s => list_eqb frame_eqb (log s) (o_log k) && list_eqb pub_eqb (g_log s) (o_glog k) &&
-              (N.of_nat (length (cw s)) =? o_cwlen k)
+              (N.of_nat (length (cw s)) =? o_cwlen k) &&
+              Bool.eqb (match ch s with Sub _ _ => true | _ => false end) (o_subscribed k)
   | None => false
   end.
 
